@@ -1391,6 +1391,12 @@ impl<'ast> LoweringContext<'ast> {
             ast::CustomType::Enum(enm) => {
                 let tcx_id = self.lookup_id.resolve_enum(enm).expect("enum is in env");
 
+                if self_param.reference.is_some() {
+                    // The bindings pass enums by value, the exported function would take a pointer
+                    self.errors.push(LoweringError::Other(format!("Method `{method_full_path}` takes a reference to an enum as a self parameter, which isn't allowed")));
+                    return Err(());
+                }
+
                 let attrs = self.attr_validator.attr_from_ast(
                     &self_param.attrs,
                     &Attrs::default(),
